@@ -6,7 +6,7 @@ Copies the working tree (tracked + untracked-not-ignored files) to <dst>, rewrit
 (`…::verif::sync`, injected from sim/shim/verif_sync.rs), and syncs by checksum so that unchanged
 files keep their mtime (incremental builds stay incremental).
 
-usage: instrument.py [--no-rewrite] [--src /repo] [--dst /verif/instrumented]
+usage: instrument.py [--no-rewrite] [--src /repo] [--dst <this checkout>/instrumented]
 """
 import os, re, shutil, subprocess, sys, tempfile
 
@@ -16,8 +16,9 @@ def main():
     def opt(name, default):
         return args[args.index(name) + 1] if name in args else default
     src = opt("--src", "/repo")
-    dst = opt("--dst", "/verif/instrumented")
-    shim = os.path.join(os.path.dirname(os.path.abspath(__file__)), "..", "sim", "shim", "verif_sync.rs")
+    here = os.path.dirname(os.path.abspath(__file__))
+    dst = opt("--dst", os.path.normpath(os.path.join(here, "..", "instrumented")))
+    shim = os.path.join(here, "..", "sim", "shim", "verif_sync.rs")
     files = subprocess.check_output(["git", "-C", src, "ls-files", "-co", "--exclude-standard"], text=True).split("\n")
     stage = tempfile.mkdtemp(prefix="liquid-instr-")
     try:
